@@ -15,6 +15,11 @@
     wsNorm_absorbs strip_only_whitespace_global_partial wsNorm_commutes_with_escape
     cache_unobservable_markup_attrs ser_is_map_emit_markup_attrs markup_attr_key_collision_witness
     markup_attrs_conservative
+    flat_cache_inv_initial flat_cache_inv_preserved flat_cache_inv flat_cache_entry_bindings_only
+    flatten_cache_irrelevant_full flatten_cached_is_xml_flatten flat_cache_stale_entry_violates_inv
+    flat_cache_typed_key_collision_witness ser_cache_irrelevant_full lite_flatten_is_xml_flatten
+    render_full_cache_irrelevant render_full_extends_render strip_only_whitespace_full_partial
+    ser_typed_conservative
 -/
 import Genshi.Lemmas.Output
 import Genshi.Lemmas.OutputFlatten
@@ -23,7 +28,12 @@ import Genshi.Lemmas.OutputWsDoctype
 import Genshi.Lemmas.OutputWsGlobal
 import Genshi.Lemmas.OutputSafeText
 import Genshi.Lemmas.OutputMarkupAttr
+import Genshi.Lemmas.OutputFlattenCacheC
+import Genshi.Lemmas.OutputFlattenLiteFull
+import Genshi.Lemmas.OutputFlatPipeline
 import Genshi.Model.OutputPipeline
+import Genshi.Model.OutputFlatPipeline
+import Genshi.Model.OutputPipelineFull
 namespace Genshi.Props.C09
 open Genshi Genshi.Output
 
@@ -158,6 +168,117 @@ theorem markup_attr_key_collision_witness :
 example : (loopT .xml {} true {} exTyped).flatten =
     "<a t=\"x&y\"></a><a t=\"x&amp;y\"></a>".toList := by decide
 
+/-! ### `NamespaceFlattener` with its START/EMPTY cache on the FULL namespace model
+
+  `Xml.cstep` / `Xml.cflatten` (Model/OutputFlattenCache.lean) put the filter's private cache — hit
+  only when the cache is on, nothing is pending and no attribute value is a Markup instance; an
+  entry stored only for a tag that wrote no declaration; cleared when a START declares and when an
+  END takes declarations out of scope — on top of property C02's model of the filter
+  (`Xml.flatStep`: bindings, pending requests, open elements, prefix generator), with typed
+  attribute values. -/
+
+/-- the invariant `Xml.CacheOk pref bindings cache`: every entry is what the miss path computes for
+    its key under the bindings now in scope with nothing pending — for every value of the prefix
+    generator's counter and every stack of open elements —, writing no declaration and leaving the
+    bindings alone.  It holds of the empty cache. -/
+theorem flat_cache_inv_initial (pref : List (Str × Str)) (bs : List Xml.Binding) : Xml.CacheOk pref bs [] :=
+  Xml.cacheOk_nil pref bs
+
+/-- Every event preserves the invariant, and under it the step with the cache yields the same
+    events and reaches the same flattener state as the step without (whatever the cache-less
+    run carries in its unused cache component). -/
+theorem flat_cache_inv_preserved (pref : List (Str × Str)) (st : Xml.FSt) (cache cache2 : Xml.Cache)
+    (e : Xml.TXEv) (h : Xml.CacheOk pref st.bindings cache) :
+    (Xml.cstep pref true ⟨st, cache⟩ e).2 = (Xml.cstep pref false ⟨st, cache2⟩ e).2 ∧
+    (Xml.cstep pref true ⟨st, cache⟩ e).1.st = (Xml.cstep pref false ⟨st, cache2⟩ e).1.st ∧
+    Xml.CacheOk pref (Xml.cstep pref true ⟨st, cache⟩ e).1.st.bindings (Xml.cstep pref true ⟨st, cache⟩ e).1.cache :=
+  Xml.cstep_cache pref st cache cache2 e h
+
+/-- hence the invariant holds at every point of every stream -/
+theorem flat_cache_inv (pref : List (Str × Str)) (evs : List Xml.TXEv) :
+    Xml.CacheOk pref (evs.foldl (fun c e => (Xml.cstep pref true c e).1) ⟨Xml.FSt.init, []⟩).st.bindings
+      (evs.foldl (fun c e => (Xml.cstep pref true c e).1) ⟨Xml.FSt.init, []⟩).cache :=
+  Xml.crun_inv pref evs Xml.FSt.init [] (Xml.cacheOk_nil _ _)
+
+/-- why clearing on every change of `bindings` suffices: a start tag that writes no declaration is
+    flattened the same in every state with the same bindings and nothing pending — the prefix
+    generator's counter, the open elements and (redundant) pending requests do not matter — and it
+    leaves bindings and counter as they were -/
+theorem flat_cache_entry_bindings_only (pref : List (Str × Str)) (st : Xml.FSt) (tag : QName) (a : Xml.TAttrs)
+    (h : (Xml.flatStartT pref st tag a).2.2.declared = []) :
+    (Xml.flatStartT pref st tag a).2.2 = ⟨st.bindings, [], st.counter⟩ ∧
+    ∀ st' : Xml.FSt, st'.bindings = st.bindings → st'.pending = [] →
+      Xml.flatStartT pref st' tag a =
+        ((Xml.flatStartT pref st tag a).1, (Xml.flatStartT pref st tag a).2.1, ⟨st.bindings, [], st'.counter⟩) :=
+  Xml.flatStartT_nodecl pref st tag a h
+
+/-- `NamespaceFlattener(prefixes, cache=True)` and `NamespaceFlattener(prefixes, cache=False)` yield
+    the same events, for every preferred-prefix mapping and every stream of events whose
+    attribute values are plain strings or Markup instances — on the full namespace model. -/
+theorem flatten_cache_irrelevant_full (pref : List (Str × Str)) (evs : List Xml.TXEv) :
+    Xml.cflatten pref true evs = Xml.cflatten pref false evs :=
+  Xml.crun_cache pref evs Xml.FSt.init [] [] (Xml.cacheOk_nil _ _)
+
+/-- ... and on events with plain values that is C02's `Xml.flatten`: every theorem of property C02
+    about the flattener's output speaks about the filter as it runs, cache on -/
+theorem flatten_cached_is_xml_flatten (pref : List (Str × Str)) (useCache : Bool) (evs : List Xml.XEv) :
+    Xml.cflatten pref useCache (evs.map Xml.TXEv.ofX) = (Xml.flatten pref evs).map Xml.TFEv.ofF := by
+  cases useCache
+  · exact Xml.crun_false_ofX pref evs Xml.FSt.init []
+  · rw [flatten_cache_irrelevant_full]; exact Xml.crun_false_ofX pref evs Xml.FSt.init []
+
+/-- the same start tag `{u}a` four times: outermost (declares `xmlns="u"`, clears), nested (computed, stored),
+    nested again (HIT), and after both ENDs (the END that drops the declaration cleared the cache:
+    declares again) -/
+def exFlat : List Xml.TXEv :=
+  [.tag false ⟨['u'], ['a']⟩ [], .tag false ⟨['u'], ['a']⟩ [], .tag true ⟨['u'], ['a']⟩ [],
+   .ev (.end_ ⟨['u'], ['a']⟩), .ev (.end_ ⟨['u'], ['a']⟩), .tag true ⟨['u'], ['a']⟩ []]
+
+example : Xml.cflatten Xml.defaultPref true exFlat =
+    [.tag false ['a'] [(['x','m','l','n','s'], (['u'], false))], .tag false ['a'] [], .tag true ['a'] [],
+     .end_ ['a'], .end_ ['a'], .tag true ['a'] [(['x','m','l','n','s'], (['u'], false))]] := by decide
+
+/-- the hit happens: in the state before the third tag the cache answers -/
+example : (Xml.chit true
+    ((exFlat.take 2).foldl (fun c e => (Xml.cstep Xml.defaultPref true c e).1) ⟨Xml.FSt.init, []⟩)
+    false ⟨['u'], ['a']⟩ []).isSome = true := by decide
+
+/-- An entry that survives the END which takes its declaration out of scope breaks the invariant
+    (the mutation "no `cache.clear()` in the END branch"): what was stored for `{u}a` inside the
+    scope of `xmlns="u"` is not what the tag is flattened to outside. -/
+theorem flat_cache_stale_entry_violates_inv :
+    ¬ Xml.CacheOk Xml.defaultPref Xml.FSt.init.bindings [(⟨false, ⟨['u'], ['a']⟩, []⟩, (['a'], []))] := by
+  intro h
+  have := h _ _ List.mem_cons_self Xml.FSt.init rfl rfl
+  revert this
+  decide
+
+/-- a cache layer keyed on `==` alone (before repair 80997eb: no `_cacheable` test) serves a start
+    tag holding a plain value the stored output of the equal Markup value: the entry the old code
+    stored for the Markup twin differs from what the plain twin is flattened to (the types of the
+    values differ, which the serializer's `escape` sees) -/
+theorem flat_cache_typed_key_collision_witness :
+    let aM : Xml.TAttrs := [(⟨[], ['t']⟩, (['x', '&', 'y'], true))]
+    let aP : Xml.TAttrs := [(⟨[], ['t']⟩, (['x', '&', 'y'], false))]
+    Xml.keyOf false ⟨[], ['a']⟩ aM = Xml.keyOf false ⟨[], ['a']⟩ aP ∧
+    (Xml.flatStartT Xml.defaultPref Xml.FSt.init ⟨[], ['a']⟩ aM).2.1 ≠
+      (Xml.flatStartT Xml.defaultPref Xml.FSt.init ⟨[], ['a']⟩ aP).2.1 ∧
+    Xml.cflatten Xml.defaultPref true [.tag false ⟨[], ['a']⟩ aM, .tag false ⟨[], ['a']⟩ aP] =
+      [.tag false ['a'] [(['t'], (['x', '&', 'y'], true))], .tag false ['a'] [(['t'], (['x', '&', 'y'], false))]] := by
+  decide
+
+/-- The serializer behind `EmptyTagFilter` (`strip_whitespace=False`, no doctype option) on the
+    FULL namespace domain with typed attribute values: `NamespaceFlattener(prefixes, cache)`
+    followed by the main loop of the method, both given the same `cache` argument — the text
+    written with `cache=True` is the text written with `cache=False`, for every method, option
+    setting, preferred-prefix mapping and stream. -/
+theorem ser_cache_irrelevant_full (m : Method) (o : Opts) (pref : List (Str × Str)) (evs : List Xml.TXEv) :
+    serT m o pref true evs = serT m o pref false evs := by
+  simp only [serT, flatten_cache_irrelevant_full, cache_unobservable_markup_attrs]
+
+example : serT .xml {} Xml.defaultPref true exFlat =
+    "<a xmlns=\"u\"><a><a/></a></a><a xmlns=\"u\"/>".toList := by decide
+
 /-! ### the whole serializer (filters included), on the modelled (lite namespace) domain -/
 
 /-- The flattener's own START/EMPTY cache is unobservable. -/
@@ -178,6 +299,89 @@ theorem render_cache_irrelevant (m : Method) (strip : Bool) (dt : Option DocType
 
 example : render .html { strip := false, cache := true } [.start ⟨[], ['p']⟩ [], .text ['<'] false, .end_ ⟨[], ['p']⟩]
     = some ['<', 'p', '>', '&', 'l', 't', ';', '<', '/', 'p', '>'] := by decide
+
+/-- The lite flattener (the one inside `render`, `Model/OutputFlattenLite.lean`) is property C02's
+    full flattener restricted to its domain: whenever it answers `some out` — with or without its
+    cache —, `out` is `Xml.flatten pref` of the same events through the adapters `toX` / `ofXF`, for
+    EVERY preferred-prefix mapping (on the lite domain no prefix is ever made up).  Hence, with
+    `flatten_cached_is_xml_flatten`, also the output of the full filter with its cache.
+    Hypothesis: no element namespace is the reserved string U+0000, which C02's model reads as
+    Python's `None` (a QName never has that namespace). -/
+theorem lite_flatten_is_xml_flatten (m : Method) (c : Bool) (pref : List (Str × Str)) (evs : List QEv)
+    (out : List FEv) (hok : ∀ e ∈ evs, tagOk e = true) (h : flatten c (flatInit m) evs = some out) :
+    (Xml.flatten pref (evs.map toX)).map ofXF = out := by
+  have h' : flatten false (flatInit m) evs = some out := by
+    cases c
+    · exact h
+    · rw [← flatten_cache_irrelevant]; exact h
+  exact flatten_lift pref evs (flatInit m) Xml.FSt.init out (rel_init m) hok h'
+
+example : flatten true (flatInit .xhtml)
+    [.start ⟨xhtmlNs, ['p']⟩ [(⟨xmlNs, ['l','a','n','g']⟩, ['e','n'])], .empty ⟨xhtmlNs, ['b']⟩ [], .empty ⟨[], ['i']⟩ [],
+     .end_ ⟨xhtmlNs, ['p']⟩] =
+    some [.start ['p'] [(xmlns, xhtmlNs), (['x','m','l',':','l','a','n','g'], ['e','n'])], .empty ['b'] [],
+          .empty ['i'] [(xmlns, [])], .end_ ['p']] := by decide
+
+/-! ### the whole serializer with the full flattener: total, every namespace construct -/
+
+/-- `render(cache=True) = render(cache=False)` for EVERY stream — any namespaces, prefixes,
+    START_NS / END_NS events, made-up declarations —, every method, `strip_whitespace` setting,
+    doctype option and `drop_xml_decl`: `renderFull` is the serializer with `EmptyTagFilter`,
+    `WhitespaceFilter`, the full `NamespaceFlattener` with its own cache (given the method's preferred
+    prefixes as extracted from the code), `DocTypeInserter` and the main loop with its cache. -/
+theorem render_full_cache_irrelevant (m : Method) (strip : Bool) (dt : Option DocTypeT) (dropd : Bool)
+    (s : Stream) :
+    renderFull m { strip := strip, cache := true, doctype := dt, dropXmlDecl := dropd } s =
+    renderFull m { strip := strip, cache := false, doctype := dt, dropXmlDecl := dropd } s := by
+  simp only [renderFull, filteredFull, flatten_cache_irrelevant_full, serCache_eq_serNoCache]
+
+theorem ofTF_ofF (x : Xml.FEv) : ofTF (Xml.TFEv.ofF x) = ofXF x := by
+  cases x <;> simp [ofTF, Xml.TFEv.ofF, ofXF, Xml.typedOfF, Function.comp_def]
+
+/-- `renderFull` extends `render`: wherever the lite-domain model of the whole serializer answers,
+    the full one gives the same text (so the theorems about `render` — strip, history, cache — are
+    theorems about `renderFull` on that domain).  Hypothesis as in `lite_flatten_is_xml_flatten`. -/
+theorem render_full_extends_render (m : Method) (cfg : Cfg) (s : Stream) (out : Str)
+    (hok : ∀ e ∈ preFlat m cfg.strip s, tagOk e = true) (h : render m cfg s = some out) :
+    renderFull m cfg s = out := by
+  simp only [render, chunks, filtered, Option.map_map] at h
+  cases hf : flatten cfg.cache (flatInit m) (preFlat m cfg.strip s) with
+  | none => simp [hf] at h
+  | some fs =>
+    simp only [hf, Option.map_some, Function.comp_apply, Option.some.injEq] at h
+    have hl := lite_flatten_is_xml_flatten m cfg.cache (prefOf m) _ fs hok hf
+    have hc := flatten_cached_is_xml_flatten (prefOf m) cfg.cache ((preFlat m cfg.strip s).map toX)
+    simp only [List.map_map] at hc
+    have hfun : (Xml.TXEv.ofX ∘ toX) = fun e => Xml.TXEv.ofX (toX e) := rfl
+    rw [hfun] at hc
+    simp only [renderFull, filteredFull, hc, List.map_map]
+    have hcomp : (ofTF ∘ Xml.TFEv.ofF) = ofXF := by funext x; exact ofTF_ofF x
+    rw [hcomp, hl]
+    exact h
+
+/-- the typed pipeline extends the plain one conservatively: on a stream whose attribute values are
+    all plain strings, `serT` (flattener with cache + typed main loop) behind `EmptyTagFilter` writes
+    what `renderFull` writes with `strip_whitespace=False` and no doctype option -/
+theorem ser_typed_conservative (m : Method) (c dropd : Bool) (s : Stream) :
+    serT m ⟨dropd⟩ (prefOf m) c ((emptyTag none s).map fun e => Xml.TXEv.ofX (toX e)) =
+    renderFull m { strip := false, cache := c, doctype := none, dropXmlDecl := dropd } s := by
+  have h1 := serT_plain m ⟨dropd⟩ (prefOf m) c ((emptyTag none s).map toX)
+  simp only [List.map_map] at h1
+  have hfun : (Xml.TXEv.ofX ∘ toX) = fun e => Xml.TXEv.ofX (toX e) := rfl
+  rw [hfun] at h1
+  rw [h1]
+  have hc := flatten_cached_is_xml_flatten (prefOf m) c ((emptyTag none s).map toX)
+  simp only [List.map_map] at hc
+  rw [hfun] at hc
+  simp only [renderFull, filteredFull, preFlat, withDoctype, Bool.false_eq_true, ↓reduceIte, hc, List.map_map]
+  have hcomp : (ofTF ∘ Xml.TFEv.ofF) = ofXF := by funext x; exact ofTF_ofF x
+  rw [hcomp]
+
+/-- outside the lite domain (`render` answers `none`): two prefixed namespaces, a re-bound prefix -/
+example : renderFull .xml { strip := false, cache := true }
+    [.startNs ['p'] ['u'], .start ⟨['u'], ['a']⟩ [], .start ⟨['v'], ['b']⟩ [(⟨['u'], ['k']⟩, ['1'])],
+     .end_ ⟨['v'], ['b']⟩, .end_ ⟨['u'], ['a']⟩, .endNs ['p']]
+    = "<p:a xmlns:p=\"u\"><b xmlns=\"v\" p:k=\"1\"/></p:a>".toList := by decide
 
 /-! ### what the constructors pass on (generated tables) -/
 
@@ -408,6 +612,35 @@ theorem strip_only_whitespace_global_partial (m : Method) (cache dropd : Bool) (
   simpa using this
 
 example : wsNorm ['<', 'p', '>', ' ', '\n', '\n', 'x'] = wsNorm ['<', 'p', '>', '\n', 'x'] := by decide
+
+/-- The same for the total model `renderFull`, on the part of its domain where the lite-domain
+    model `render` answers (there the two agree: `render_full_extends_render`).
+    FULL STATEMENT (not proved): the equation for every stream — it needs the whitespace lemmas
+    (`renderWith_rel`, `wsMerge_tailOut`) re-proved against `Xml.cflatten`, see notes/C09.md. -/
+theorem strip_only_whitespace_full_partial (m : Method) (cache dropd : Bool) (dt : Option DocTypeT)
+    (s : Stream) (hag : NoescapeAgreeS m s)
+    (hok : ∀ strip, ∀ e ∈ preFlat m strip s, tagOk e = true)
+    (hdom : (render m { strip := false, cache := cache, doctype := dt, dropXmlDecl := dropd } s).isSome) :
+    wsNorm (renderFull m { strip := true, cache := cache, doctype := dt, dropXmlDecl := dropd } s) =
+    wsNorm (renderFull m { strip := false, cache := cache, doctype := dt, dropXmlDecl := dropd } s) := by
+  have hrel := strip_only_whitespace_global_partial m cache dropd dt s hag
+  cases h1 : render m { strip := true, cache := cache, doctype := dt, dropXmlDecl := dropd } s with
+  | none =>
+    cases h2 : render m { strip := false, cache := cache, doctype := dt, dropXmlDecl := dropd } s with
+    | none => rw [h2] at hdom; cases hdom
+    | some b => rw [h1, h2] at hrel; simp [OptRel] at hrel
+  | some a =>
+    cases h2 : render m { strip := false, cache := cache, doctype := dt, dropXmlDecl := dropd } s with
+    | none => rw [h2] at hdom; cases hdom
+    | some b =>
+      rw [h1, h2] at hrel
+      rw [render_full_extends_render m _ s a (hok true) h1, render_full_extends_render m _ s b (hok false) h2]
+      simpa [OptRel] using hrel
+
+example : wsNorm (renderFull .xhtml { strip := true, cache := true }
+      [.start ⟨xhtmlNs, ['p']⟩ [], .text [' ', '\n', '\n', 'x'] false, .end_ ⟨xhtmlNs, ['p']⟩]) =
+    wsNorm (renderFull .xhtml { strip := false, cache := true }
+      [.start ⟨xhtmlNs, ['p']⟩ [], .text [' ', '\n', '\n', 'x'] false, .end_ ⟨xhtmlNs, ['p']⟩]) := by decide
 
 theorem wsNorm_deletes_only_ws (x : Str) :
     (wsNorm x).Sublist x ∧ (wsNorm x).filter (fun c => !wsChar c) = x.filter (fun c => !wsChar c) :=
